@@ -11,7 +11,7 @@ import itertools
 import random
 from typing import Any
 
-POSITIVE, NONE, LATE, ROOR = 0, 256, 257, 0x31
+POSITIVE, NONE, LATE, CRASH, ROOR = 0, 256, 257, 258, 0x31
 SVCS = [0x23, 0x3D, 0x34, 0x35]
 SVC_NAMES = {0x23: "ReadMemoryByAddress", 0x3D: "WriteMemoryByAddress", 0x34: "RequestDownload", 0x35: "RequestUpload"}
 # negative response codes an ECU may give a memory request (not 0x21 / 0x78: resolved by the UDS client, C04)
@@ -155,6 +155,25 @@ def dense_family() -> list[dict[str, Any]]:
     return out
 
 
+# ------------------------------------------------------------------ the ECU crashes on a memory access
+def crash_family() -> list[dict[str, Any]]:
+    """No answer, connection closed, ECU back in the default session.  Only with client retries >= 1: the option
+    help documents that reconnects are triggered by the retries ("If supported by the transport, this will
+    trigger reconnects if required"); with max_retries 0 nothing reconnects and the sources are silent."""
+    out = []
+    n = 0
+    for at, check, retries in itertools.product((0x05, 0xFF, 0x0100, 0x00), (None, 1, 7), (1, None)):
+        n += 1
+        svc, session, data, _ = _opts(n)
+        if session == 1:
+            session = 2
+        mem = {at: CRASH, 0x06: POSITIVE, 0x0200: 0x33, 0xFF00: NONE}
+        out.append(make_case(ecu_model(session, mem, sess_read="ok" if n % 5 else "unsupported",
+                                       budget=1 if n % 7 == 3 else -1),
+                             svc, session, data, check, retries, n, "crash"))
+    return out
+
+
 # ------------------------------------------------------------------ seeded random models
 def random_family(tier: str, seed: int) -> list[dict[str, Any]]:
     rng = random.Random(seed * 7919 + 5)
@@ -164,8 +183,9 @@ def random_family(tier: str, seed: int) -> list[dict[str, Any]]:
         session = rng.choice([2, 3, 3, 1])
         pool = BOUNDARY + AROUND + [rng.randrange(256) << (8 * rng.randrange(5)) for _ in range(8)]
         mem = {}
+        retries = rng.choice([None, 0, 1, 2])
         for a in rng.sample(pool, rng.randrange(1, 12)):
-            mem[a] = rng.choice([POSITIVE, POSITIVE, NONE, LATE, ROOR] + NRCS)
+            mem[a] = rng.choice([POSITIVE, POSITIVE, NONE, LATE, ROOR] + NRCS + ([CRASH] if retries != 0 else []))
         drop = rng.sample(sorted(mem), 1) if rng.random() < 0.4 and session != 1 else []
         check = rng.choice([None, None, 1, 3, 10, 64, 255, 257])
         read = rng.choice(["ok", "ok", "ok", "unsupported", "silent"]) if check not in (1, 3) else "ok"
@@ -173,9 +193,10 @@ def random_family(tier: str, seed: int) -> list[dict[str, Any]]:
         out.append(make_case(ecu_model(session, mem, other=rng.choice([0x7F, 0x31, 0x33, 0x11]), drop=drop,
                                        sess_read=read, budget=rng.choice([-1, -1, 1, 2]),
                                        reset_ok=rng.random() < 0.8),
-                             svc, session, data, check, rng.choice([None, 0, 1, 2]), n, "random"))
+                             svc, session, data, check, retries, n, "random"))
     return out
 
 
 def build_cases(tier: str, seed: int) -> list[dict[str, Any]]:
-    return abstract(tier) + session_family(tier) + layout_family() + dense_family() + random_family(tier, seed)
+    return (abstract(tier) + session_family(tier) + layout_family() + dense_family() + crash_family()
+            + random_family(tier, seed))
